@@ -172,3 +172,31 @@ claim("C06",
       "means no NAK and completion; both orderings of progress vs EOF size are handled (tail gap / size fault).",
       "trusted: as C10, C18 for the tracker's content",
       "DESIGN.md section 2 C06")
+
+
+# rules added after the first complete pass (DESIGN.md A5, A5.1, A6): appended to the claims above
+_ADDED = {
+    "C02": "Also decided: ids compared by value (R3), create/truncate exactly once on Metadata acceptance (R4), end-to-end completion in the product of both transition systems over a "
+           "lossless link for 8 shape x mode x closure scenarios (R5, definite when unreachable), and no silently lost input: a PDU offered in the call that enters a (derived) wait step "
+           "is handled in that call if that step handles it (R6).",
+    "C03": "Also decided: every call that acknowledges an EOF stores the checksum the completion check compares against (R1d); in the product, acknowledgements carry the transaction "
+           "status (handlers ACTIVE, the entity for closed transactions inactive); thorough tier: any TWO dropped PDUs (R3).",
+    "C04": "R3 exempts the documented 'awaiting file data / EOF' wait only before an EOF was processed; R4 treats a true limit comparison on an edge as the declaration, whether or not a "
+           "callback follows; counter-discipline instances are deduplicated by (key, outcome).",
+    "C05": "R2 additionally requires the joined source name to be reduced to its base name.",
+    "C06": "R5 is decided on the ATS (tail gap recorded / size fault declared on EOF edges); R6: a gap is recorded whatever the NAK mode, the extent before Metadata starts at 0; R7: a list "
+           "handed to a PDU constructor is not mutated afterwards. Idiom rules match the normalised syntax tree (private helpers inlined, local aliases expanded).",
+    "C09": "R2 has a definite, shape-independent clause (the bytes fed to the CRC are data-dependent on the prefix length) and follows an extracted helper; R6 modular word grid; R7: a "
+           "prefix length of 0 is legal (never decided by truthiness).",
+    "C12": "R3 demands completion by packet-less calls after Cancel.request; R4: a transaction recorded as cancelled emits no NAK and its condition/delivery code are never replaced by "
+           "success; R5: every path that takes up an EOF consults its condition code.",
+    "C13": "R2 additionally: the check count is zeroed and the timer restarted only on entry into the check-limit step (not by late File Data or packet-less calls inside it).",
+    "C14": "R3 additionally: a notice of cancellation records the declared condition for the completion; abandonment per condition and event order; R5: all-code probe of the fault "
+           "declaration helper (a crash before the callback is a finding); R6: every fault-handler table instance owns its dict.",
+    "C16": "R4: the user base class stores the supplied filestore object itself whenever one is supplied (identity, not truthiness).",
+    "C17": "R5/R6: refusals by exception only for atomically failing host calls, SUCCESS only after the effect; R7: no instance state is read by an operation, or every path-keyed memo is "
+           "invalidated by every operation for every existing path it changes.",
+}
+for _pid, _extra in _ADDED.items():
+    if _pid in CLAIMS:
+        CLAIMS[_pid]["text"] += " " + _extra
